@@ -538,13 +538,18 @@ def rule_defaultclose(P) -> RuleResult:
             return SList([('NAME', QUERY), ('expenses to date', QUERY)], kind='dict')
         return NotImplemented
     good = True
-    for arg in ('NAME', '*'):
+    # (a statement typed at the prompt ends with a semicolon, blanks before it allowed: `.run NAME ;` is `.run NAME`)
+    for arg in ('NAME', '*', 'NAME;', 'NAME ;', '*;', '* ;', '"expenses to date" ;', ';', ' ; '):
         executed.clear()
         Engine(P, on_call=on_call_run, on_attr=on_attr_run).paths(run, {'self': SHELL, run.params[1]: arg})
-        if len(executed) != (1 if arg == 'NAME' else 2):
+        bare = arg.strip('; ')
+        n_want = 0 if not bare else 2 if bare == '*' else 1
+        if len(executed) != n_want:
             good = False
-            res.fail(f'{shell.fq}.do_run', 'defaultclose:run', f'.run {arg} must execute {"the named query" if arg == "NAME" else "every named query, "
+            res.fail(f'{shell.fq}.do_run', 'defaultclose:run', f'.run {arg} must execute {"no query (it lists them)" if not bare else "the named query" if bare != "*" else "every named query, "
                      "whatever its name (a name is free text: `expenses to date`)"}; it executes {len(executed)} of them', loc(run))
+            continue
+        if not bare:
             continue
         if not executed or any(a != (_attr(QUERY, 'query_string'),) or kw.get('default_close_date', None) != _attr(QUERY, 'date') or len(kw) != 1
                                for a, kw in executed):
